@@ -83,9 +83,10 @@ def load_functions(repo, relfile, names, include=(), defines=(), std="c++11"):
             objs.append(o)
         bodies = [o for o in objs if o.get("kind") in ("FunctionDecl", "CXXMethodDecl") and o.get("name") == name
                   and any(c.get("kind") == "CompoundStmt" for c in o.get("inner", []))]
-        with open(cpath + ".tmp", "w") as fh:
+        tmp = f"{cpath}.{os.getpid()}.tmp"  # unique per process: several contracts load the same function concurrently
+        with open(tmp, "w") as fh:
             json.dump(bodies, fh)
-        os.replace(cpath + ".tmp", cpath)
+        os.replace(tmp, cpath)
         out[name] = bodies
     return out
 
